@@ -915,10 +915,17 @@ func c03Run(t *testing.T, r *rec, tier string, seed int64, unit int) {
 	var spans []span
 	var cur *span
 	sessOf := map[int64]string{}
+	sessOpened := map[int64]int64{} // session -> sequence number at which it was opened
+	lostBy := map[string]int64{}    // client -> sequence number at which its own lock znode was removed by a session expiry
+	// tainted: the history contains the recorded finding "a versioned delete queued in the client library across a session
+	// change hits the znode somebody else created meanwhile" (known_findings.json); what follows from it in the same
+	// history carries the same suffix
+	taint := ""
 	var expires []porcupine.Operation
 	for _, l := range log {
 		if l.Op == "session-open" {
 			sessOf[l.Sess] = l.Client
+			sessOpened[l.Sess] = l.Seq
 		}
 		if l.Op == "session-expire" || l.Op == "session-close" {
 			expires = append(expires, porcupine.Operation{ClientId: 99, Input: lkIn{"expire", l.Client}, Output: true, Call: l.Seq, Return: l.Seq})
@@ -941,10 +948,16 @@ func c03Run(t *testing.T, r *rec, tier string, seed int64, unit int) {
 				if l.Op == "delete" {
 					// (b) a release removes only a lock carrying the releasing process's identity
 					if cur.owner != l.Client {
-						r.violate("C03", "release-removed-foreign-lock", fmt.Sprintf("%s deleted the lock znode owned by %s", l.Client, cur.owner))
+						if at, ok := lostBy[l.Client]; ok && sessOpened[l.Sess] > at {
+							// the deleter read its own znode in an earlier session, lost that session (and the znode) and sends the
+							// delete in a new one
+							taint = ":delete-queued-across-a-session-change"
+						}
+						r.violate("C03", "release-removed-foreign-lock"+taint, fmt.Sprintf("%s deleted the lock znode owned by %s", l.Client, cur.owner))
 					}
 					r.cov("release-applied")
 				} else {
+					lostBy[cur.sessCl] = l.Seq
 					r.cov("lock-expired")
 				}
 				cur = nil
@@ -972,7 +985,7 @@ func c03Run(t *testing.T, r *rec, tier string, seed int64, unit int) {
 			for _, sp := range spans {
 				w = append(w, fmt.Sprintf("lock held by %s (session of %s) during [%d,%d]", sp.owner, sp.sessCl, sp.from, sp.to))
 			}
-			r.violate("C03", "told-true-without-holding", fmt.Sprintf("%s was told it holds the lock by a call during logical interval [%d,%d] (%.3fs), but at no instant of it does the lock znode exist with its identity under a live session of its own (ttl %v)", e.client, e.call, e.ret, e.vcall.Seconds(), ttl), w...)
+			r.violate("C03", "told-true-without-holding"+taint, fmt.Sprintf("%s was told it holds the lock by a call during logical interval [%d,%d] (%.3fs), but at no instant of it does the lock znode exist with its identity under a live session of its own (ttl %v)", e.client, e.call, e.ret, e.vcall.Seconds(), ttl), w...)
 		}
 	}
 	// mutual exclusion of "told true": two clients told true in disjoint call intervals need an ownership change in between — covered by the span test;
@@ -996,7 +1009,7 @@ func c03Run(t *testing.T, r *rec, tier string, seed int64, unit int) {
 	hist = append(hist, expires...)
 	res := porcupine.CheckOperationsTimeout(lockModel(), hist, 120*time.Second)
 	if res == porcupine.Illegal {
-		r.violate("C03", "lock-history-not-linearizable", fmt.Sprintf("the acquire/release history of %d clients (ttl %v) has no linearization under the sequential lock model", nc, ttl))
+		r.violate("C03", "lock-history-not-linearizable"+taint, fmt.Sprintf("the acquire/release history of %d clients (ttl %v) has no linearization under the sequential lock model", nc, ttl))
 	} else if res == porcupine.Unknown {
 		r.res.Why = "porcupine timed out"
 	}
